@@ -130,7 +130,7 @@ def check_months(ctx, N):
                     print('DBG adj', adj, 'rv', rv[1], D.TERM.get(rv[1]), D.get_iv(st, rv[1]), 'mv', mv, 'dv', dv, 'lx', lx, [D.get_iv(st, v) for v in (y1, y2, m1, m2)])
                 ctx.finding(f'C07:BORROW|{MB}', 'C07 borrow decided by the path', span,
                             f'months_between: M - ({adj}) is returned on a path where M is in [{lo}, {hi}] and (day, time) compares as {sorted(lx)}')
-    ctx.rule('C07 months_between = month index difference truncated toward zero over (day, time)', n, ok, floor=6, sample={'paths': n})
+    ctx.rule('C07 months_between = month index difference truncated toward zero over (day, time)', n, ok, floor=2, sample={'paths': n})
 
 
 def check_years(ctx, facts):
